@@ -151,6 +151,30 @@ func (f *Facts) Check(t []rune, p, g int, m span) string {
 		if !ok {
 			return fmt.Sprintf("none of LeadingPrefixes=%q is a prefix of the input at %d", o.LeadingPrefixes, p)
 		}
+		// the rune forms of the same fact: LeadingPrefixesRunes mirrors LeadingPrefixes, and when a table of
+		// first runes is published the rune at a matching position is in it
+		if len(o.LeadingPrefixesRunes) > 0 {
+			okr := false
+			for _, pre := range o.LeadingPrefixesRunes {
+				if hasPrefixAt(t, p, pre, fold) {
+					okr = true
+				}
+			}
+			if !okr {
+				return fmt.Sprintf("none of LeadingPrefixesRunes=%q is a prefix of the input at %d", o.LeadingPrefixesRunes, p)
+			}
+		}
+		if len(o.LeadingPrefixFirstRunes) > 0 && !fold && p < n {
+			in := false
+			for _, r := range o.LeadingPrefixFirstRunes {
+				if r == t[p] {
+					in = true
+				}
+			}
+			if !in {
+				return fmt.Sprintf("LeadingPrefixFirstRunes=%q does not contain %q, the rune at the matching position %d (LeadingPrefixes=%q)", string(o.LeadingPrefixFirstRunes), t[p], p, o.LeadingPrefixes)
+			}
+		}
 	case syntax.LeadingChar_RightToLeft:
 		if p < 1 || t[p-1] != o.FixedDistanceLiteral.C {
 			return fmt.Sprintf("FixedDistanceLiteral.C=%q (leading char, right-to-left) is not the rune before %d", o.FixedDistanceLiteral.C, p)
